@@ -496,7 +496,52 @@ def rule_u10(ctx, facts):
         ctx.fail_closed("U10: expected at least the two callback sites of compute_if_present, found %d" % n)
 
 
+def rule_u11(ctx, facts):
+    """what retain / retain_force decided before a panic is carried out before the next predicate call: from the edge on which the
+    predicate returned false, the removal (`replace_node`) is executed before the predicate can run again and before the function
+    returns.  A removal that is put off until the next entry has been looked at is skipped when that next predicate call panics: an
+    entry whose rejection had completed stays in the map."""
+    from .analysis import cond_of, return_points
+    n = 0
+    for name in ("map::HashMap::retain", "map::HashMap::retain_force"):
+        b = facts.body(name)
+        fl = flow(b)
+        preds = [x for x in b.calls if user_closure_call(x) and not b.is_cleanup(x.b)]
+        rem = {x.point for x in b.calls if callee_str(x).endswith("HashMap::replace_node") and not b.is_cleanup(x.b)}
+        for c in preds:
+            dl = c.dst_local()
+            if dl is None:
+                continue
+            mine = fl.copies_of(dl)
+            edges = []
+            for blk in range(len(b.blocks)):
+                cd = cond_of(b, blk)
+                if cd and ((cd["kind"] == "bool" and cd.get("local") in mine) or (cd["kind"] == "call" and cd["call"].point == c.point)):
+                    edges.append((blk, cd["false"]))
+            if not edges:
+                ctx.inst("U11", b, "rejected entry removed before the next predicate call", c.span, True,
+                         "the predicate's result is not branched on in this body; not judged", nontrivial=False)
+                continue
+            n += 1
+            bad = None
+            for blk, fb in edges:
+                r = reach(b, [Point(fb, 0)], avoid=rem, unwind=False)
+                if any(p.point in r for p in preds):
+                    bad = "the predicate is called again (%s)" % [p.span for p in preds if p.point in r][0]
+                elif any(rp in r for rp in return_points(b)):
+                    bad = "the function returns"
+            ctx.inst("U11", b, "rejected entry removed before the next predicate call", c.span, bad is None,
+                     "from the edge on which the predicate returned false, replace_node runs before the predicate is called again or the function returns"
+                     if bad is None else
+                     "after the predicate called at %s returned false, %s before the entry is removed: if that later call panics, a removal that had "
+                     "been decided is lost" % (c.span, bad))
+    if n < 2:
+        ctx.fail_closed("U11: expected the predicate calls of retain and retain_force with a branch on their result, found %d" % n)
+
+
 def run(ctx, facts):
+    ctx.rule("U11", "retain / retain_force carry out a removal they decided before the predicate runs again (nothing decided is pending across a callback)", floor=2)
+    rule_u11(ctx, facts)
     ctx.rule("U10", "unwinding out of a caller-supplied closure cannot panic again: no drop glue on the cleanup path belongs to a Drop impl that can panic (no drop bomb alive across the callback)", floor=2)
     rule_u10(ctx, facts)
     ctx.rule("U9", "a caught panic of a caller-supplied closure (catch_unwind) is followed by no write, retire, unlink or count adjustment before it is re-raised", floor=0)
